@@ -157,6 +157,9 @@ func (fr *frame) runDefer(d *deferred) {
 			if a, isAbort := p.(abortPath); isAbort {
 				panic(a)
 			}
+			if c, isCrash := p.(crashSignal); isCrash {
+				panic(c)
+			}
 			fr.panicking = true
 			fr.panic = p
 		}
@@ -552,6 +555,9 @@ func runFrame(fr *frame) {
 		p := recover()
 		if a, isAbort := p.(abortPath); isAbort {
 			panic(a) // engine-level path termination: never visible to the target's defers
+		}
+		if c, isCrash := p.(crashSignal); isCrash {
+			panic(c) // a simulated process crash: no deferred function of the target runs
 		}
 		fr.panicking = true
 		fr.panic = p
